@@ -63,6 +63,8 @@ TECHNIQUE = ("Coq proofs by induction over the scanned text / the span list on t
 # no other line boundaries than \n, no ESC / CSI
 ALPHA = "abAB ,-\n\t"
 EXTRA = "ßéǆ1٣.x"
+# characters whose terminal width is not 1 (double-width, zero-width combining, astral): str methods count characters
+WIDTHS = "Ｅ中́\u0300\U0001f600ab "
 SEPS = [",", " ", "ab", "--", "\n", "a", ", ", "aa", "b,", "\t", "xyz", "A",
         # separators that mean something to the regex engine: split() must escape them
         ".", "a.", "|", "(", "*", "+", "a|b", "[a]", "\\", "$", "^"]
@@ -74,7 +76,7 @@ def rand_word(rng, alphabet):
 
 def rand_text_around(rng, sep):
     """words joined by sep: adjacent separators, separators at the ends, none at all"""
-    alphabet = rng.choice([ALPHA, ALPHA, "ab", "ab,", ALPHA + EXTRA])
+    alphabet = rng.choice([ALPHA, ALPHA, "ab", "ab,", ALPHA + EXTRA, WIDTHS, ALPHA + WIDTHS])
     n = rng.choice([1, 1, 2, 3, 4])
     words = [rand_word(rng, alphabet) for _ in range(n)]
     if rng.random() < 0.3:
